@@ -6,7 +6,7 @@ import weakref
 import numpy as np
 from hypothesis import strategies as st
 
-from ..core import SubCheck, Violation
+from ..core import HarnessError, SubCheck, Violation
 from ..env import sg
 
 Tensor = sg.Tensor
@@ -17,14 +17,14 @@ RULE = ("programs: chains y <- op_i(y) with op_i drawn from {+c, *c, tanh (<=12 
         "sum or by stack+sum, w <= 5000); ladders of diamonds (depth <= 5000); untracked update loops of length up "
         "to 1e4 inside no_grad and with operands none of which require grad.  Oracle: backward completes, leaf "
         "gradient equals the closed form (product of local derivatives / path counts), BackwardFunction.__call__ "
-        "(wrapped from outside) fires exactly once per recorded op; Python-level call count of backward for size "
+        "(wrapped from outside) fires exactly once per recorded op; number of Python source lines executed by backward (sys.monitoring) for size "
         "2n <= 2.2 x that for n; every intermediate of an untracked loop except the last is dead (weak references "
         "after gc.collect()).  non-trivial: depth >= 1000 (above the interpreter's default recursion limit) or loop "
         "length >= 1000; distinct by hash of the case")
 ASSUMPTIONS = ["'any size that fits in memory' is explored up to 5e4 sequential ops; beyond that only the linear "
                "call-count argument extrapolates",
-               "cost is asserted on deterministic Python-level call counts, never on wall time (C-level quadratic "
-               "behaviour would be invisible)"]
+               "cost is asserted on the deterministic number of Python source lines executed (sys.monitoring), never on "
+               "wall time (quadratic behaviour inside a single C call would be invisible)"]
 
 DEPTHS_Q = [10, 100, 1000, 1000, 3000, 10000]
 DEPTHS_T = [10, 100, 1000, 3000, 10000, 20000, 50000]
@@ -165,26 +165,56 @@ def _count_calls(n, kind):
     elif kind == "wide_concat":
         y = sg.concat([sg.tanh(x) for _ in range(n)], 0)
         y = y.reshape((n, 2)).sum(0)
+    elif kind == "wide_sum":
+        parts = [x * (1.0 + 0.001 * i) for i in range(n)]          # one leaf with n consumers, summed pairwise
+        while len(parts) > 1:
+            parts = [parts[i] + parts[i + 1] if i + 1 < len(parts) else parts[i] for i in range(0, len(parts), 2)]
+        y = parts[0]
     else:
         for _ in range(n):
             y = y * 0.5 + y * 0.5
     cnt = [0]
-
-    def prof(frame, event, arg):
-        if event == "call":
-            cnt[0] += 1
     g = Tensor(np.ones(2))
-    sys.setprofile(prof)
+    # work = number of Python source lines executed during backward (sys.monitoring LINE events, every execution
+    # counted): it sees Python-level calls AND Python-level loops whose body only does C-level work (set look-ups)
+    mon = sys.monitoring
+    tool = None
+    for tid in (mon.PROFILER_ID, mon.OPTIMIZER_ID, 3, 4):
+        try:
+            mon.use_tool_id(tid, "synverif-c17")
+            tool = tid
+            break
+        except ValueError:
+            continue
+    if tool is None:
+        raise HarnessError("no free sys.monitoring tool id")
+
+    def on_line(code, line):
+        cnt[0] += 1
     try:
+        mon.register_callback(tool, mon.events.LINE, on_line)
+        mon.set_events(tool, mon.events.LINE)
         y.backward(g)
     finally:
-        sys.setprofile(None)
+        mon.set_events(tool, 0)
+        mon.register_callback(tool, mon.events.LINE, None)
+        mon.free_tool_id(tool)
     return cnt[0]
 
 
 @st.composite
 def cost_cases(draw):
-    return {"n": draw(st.sampled_from([1000, 2000, 4000])), "kind": draw(st.sampled_from(["chain", "diamonds", "wide_stack", "wide_concat"]))}
+    return {"n": draw(st.sampled_from([500, 1000, 2000])), "kind": draw(st.sampled_from(["chain", "diamonds", "wide_stack", "wide_concat", "wide_sum"]))}
+
+
+def enum_cost(tier, shard, nshards):
+    """every graph family at every size of the tier (the space is tiny: enumerate instead of sampling)"""
+    i = 0
+    for n in ((500, 1000) if tier == "quick" else (500, 1000, 2000, 4000, 8000)):
+        for kind in ("chain", "diamonds", "wide_stack", "wide_concat", "wide_sum"):
+            i += 1
+            if i % nshards == shard:
+                yield {"n": n, "kind": kind}
 
 
 def check_cost(c, rec):
@@ -195,7 +225,7 @@ def check_cost(c, rec):
     except RecursionError:
         raise Violation("recursion_error", f"backward raised RecursionError at size {c['n']} ({c['kind']})")
     if b > 2.2 * a:
-        raise Violation("superlinear", f"Python-level calls during backward: {a} for n={c['n']}, {b} for 2n (ratio {b / a:.2f} > 2.2); {c}")
+        raise Violation("superlinear", f"Python source lines executed during backward: {a} for n={c['n']}, {b} for 2n (ratio {b / a:.2f} > 2.2); {c}")
     rec.tag(f"ratio~{round(b / a, 1)}")
 
 
@@ -204,7 +234,7 @@ def check_cost(c, rec):
 def loop_cases(draw, lengths):
     return {"L": draw(st.sampled_from(lengths)),
             "mode": draw(st.sampled_from(["no_grad", "no_requires_grad", "no_grad_on_param", "no_grad_after_backward"])),
-            "body": draw(st.sampled_from(["affine", "tanh", "matmul", "index", "sum_broadcast"])), "dtype": draw(st.sampled_from(["float32", "float64"])),
+            "body": draw(st.sampled_from(["affine", "tanh", "matmul", "index", "sum_broadcast", "varying_scalars", "varying_scalars"])), "dtype": draw(st.sampled_from(["float32", "float64"])),
             # the loop runs while retain_grads() is in force as well (it concerns recorded tensors only)
             "retain": draw(st.sampled_from([False, False, True]))}
 
@@ -220,7 +250,14 @@ def check_loop(c, rec):
     recorded = (y * w.sum()).sum() if c["mode"] == "no_grad_after_backward" else None   # a graph recorded normally
     refs = []
 
+    step = [0]
+
     def body(t):
+        step[0] += 1
+        if c["body"] == "varying_scalars":
+            # coefficients that change every step (decaying rate, running mean): t <- t*(1 - 1/(i+2)) + 1/(i+3) - 0.001/i
+            i = step[0]
+            return t * (1.0 - 1.0 / (i + 2)) + 1.0 / (i + 3) - 0.001 / i
         if c["body"] == "affine":
             return t * 0.9999 + 0.0001
         if c["body"] == "tanh":
@@ -238,6 +275,8 @@ def check_loop(c, rec):
             refs.append(weakref.ref(y))
 
     import contextlib
+    gc.collect()
+    live_before = sum(1 for o in gc.get_objects() if isinstance(o, Tensor))
     with (sg.retain_grads() if c.get("retain") else contextlib.nullcontext()):
         if c.get("retain"):
             rec.tag("inside_retain_grads")
@@ -251,6 +290,10 @@ def check_loop(c, rec):
     if y.requires_grad:
         raise Violation("untracked_requires_grad", f"result of an untracked loop requires grad; {c}")
     gc.collect()
+    live_after = sum(1 for o in gc.get_objects() if isinstance(o, Tensor))
+    if live_after - live_before > 8:
+        raise Violation("history_kept", f"{live_after - live_before} more Tensor objects are alive after an untracked loop of {L} steps "
+                                        f"than before it (bounded memory: at most a handful may remain); {c}", region="live_tensors")
     alive = sum(1 for r in refs[:-1] if r() is not None)
     if alive:
         raise Violation("history_kept", f"{alive} of {L - 1} intermediate results of an untracked loop are still alive after "
@@ -260,7 +303,7 @@ def check_loop(c, rec):
 def subchecks():
     return [SubCheck("graphs", check_graph, lambda: graph_cases(DEPTHS_Q), quick=14, thorough=0, shards_quick=8, shards_thorough=1),
             SubCheck("graphs_deep", check_graph, lambda: graph_cases(DEPTHS_T), quick=0, thorough=100, shards_quick=1, shards_thorough=16),
-            SubCheck("cost", check_cost, cost_cases, quick=8, thorough=30, shards_quick=3, shards_thorough=8),
+            SubCheck("cost", check_cost, None, enum=enum_cost, exhaustive=True, shards_quick=8, shards_thorough=16),
             SubCheck("untracked_loops", check_loop, lambda: loop_cases([10, 100, 1000, 3000]), quick=25, thorough=0, shards_quick=4),
             SubCheck("untracked_loops_long", check_loop, lambda: loop_cases([1000, 3000, 10000]), quick=0, thorough=100,
                      shards_quick=1, shards_thorough=8)]
